@@ -353,7 +353,7 @@ def defects(rnd, rows):
             yield "duplicate-field-name", mod(i, 1, rows[f_idx[0]][1]), i
         for bad in ("y", "xx", "0", "-"):
             yield "empty-mark:%s" % bad, mod(i, 3, bad), i
-        for bad in ("Foo", "Inte ger", "Integer.", ".Integer", "1nteger", "integer", "Text-"):
+        for bad in ("Foo", "Inte ger", "Integer.", ".Integer", "1nteger", "integer", "Text-", "Abstract", "fields.Abstract", "FieldFormat", "IntegerFieldFormat", ""[0:0] + "AbstractFieldFormat"):
             yield "field-type:%s" % bad, mod(i, 5, bad), i
         for bad in ("x", "1...2...3", "3...2", "1,,"[:2] + "..", "-2...-1"):
             yield "length:%s" % bad, mod(i, 4, bad), i
@@ -394,7 +394,7 @@ def defects(rnd, rows):
              ("check-undeclared-field-second", ["C", "k", "IsUnique", names[0] + ", no_such_field"]), ("check-empty-rule", ["C", "k", "IsUnique", ""]),
              ("check-duplicate-field", ["C", "k", "IsUnique", names[0] + ", " + names[0]]), ("check-missing-comma", ["C", "k", "IsUnique", names[0] + " " + names[0]]),
              ("check-rule-starts-with-number", ["C", "k", "DistinctCount", "3 < " + names[0]]), ("check-distinct-undeclared-field", ["C", "k", "DistinctCount", "nope < 3"]),
-             ("check-no-type", ["C", "k"]), ("check-rule-leading-blank", ["C", "k", "IsUnique", " " + names[0]])]
+             ("check-no-type", ["C", "k"]), ("check-type-abstract", ["C", "k", "Abstract", names[0]]), ("check-type-class-name", ["C", "k", "IsUniqueCheck", names[0]]), ("check-rule-leading-blank", ["C", "k", "IsUnique", " " + names[0]])]
     for name, row in extra:
         yield name, rows + [row], end
     for i in c_idx:
